@@ -1600,6 +1600,11 @@ _vbi_cache_put_page		(vbi_cache *		ca,
 		}
 	}
 
+	/* The loops above check before taking the next page,
+	   not after taking the last one. */
+	if (memory_available >= memory_needed)
+		goto replace;
+
 	if (CACHE_DEBUG) {
 		fprintf (stderr, "need %lu bytes but only %lu available ",
 			 memory_needed, memory_available);
